@@ -389,3 +389,45 @@ def run_sequence(seed, n_req, fixed=True, services="api"):
                     raws=[r["raw"][:400].decode("latin1") for r in reqs])
     finally:
         srv.close()
+
+
+def head_follow_probe():
+    """C06: GET /head/{topic}?follow&context=B must deliver only frames of context B.
+    -> dict(delivered=[ctx ids as ints], expected_ctx=B)"""
+    srv = Server("api")
+    try:
+        def post(topic, ctx=None, body=b"x"):
+            q = "?context=" + id_to_s(ctx) if ctx else ""
+            st, hd, b = srv.request(render("POST", "/" + topic + q, body=body))
+            return s_to_id(json.loads(b)["id"]) if st == 200 else None
+        b_ctx = post("xs.context")
+        post("t", b_ctx, b"old")                     # current head in B
+        s = socket.socket(socket.AF_UNIX, socket.SOCK_STREAM)
+        s.settimeout(0.2)
+        s.connect(srv.sock)
+        s.sendall(render("GET", f"/head/t?follow=true&context={id_to_s(b_ctx)}", {"Connection": "keep-alive"}))
+        time.sleep(0.3)
+        post("t", None, b"in-zero")                  # same topic, another context
+        post("t", b_ctx, b"in-b")
+        post("t", None, b"in-zero-2")
+        data, t0 = b"", time.time()
+        while time.time() - t0 < 1.2:
+            try:
+                chunk = s.recv(65536)
+                if not chunk:
+                    break
+                data += chunk
+            except socket.timeout:
+                pass
+        s.close()
+        frames = []
+        for line in data.split(b"\n"):
+            line = line.strip()
+            if line.startswith(b"{") and b'"topic"' in line:
+                try:
+                    frames.append(json.loads(line))
+                except Exception:
+                    pass
+        return dict(expected_ctx=b_ctx, delivered=[(s_to_id(f["context_id"]), f["topic"]) for f in frames])
+    finally:
+        srv.close()
